@@ -351,8 +351,8 @@ def run(tier, seed):
                sfc_models.utils.get_invalid_variable_names, sfc_models.utils.get_invalid_tokens, sfc_models.models.Model._AddCountry,
                sfc_models.models.Country._AddSector, sfc_models.sector.Sector.AddVariable, sfc_models.sector.Sector.GetVariableName,
                sfc_models.sector.Market._SearchSupplier, sfc_models.models.Model._GenerateRegisteredCashFlows)
-    BUDGET[0] = 60 if tier == 'quick' else 900
-    BUDGET[1] = 100 if tier == 'quick' else 3000
+    BUDGET[0] = 60 if tier == 'quick' else 400
+    BUDGET[1] = 100 if tier == 'quick' else 1200
     from vf import selfcheck
     selfcheck.run(chk)      # differential validation of the E2 value classes (trusted base) against plain floats
     ncs, ccs = nc_cases(tier), contraction_cases(tier)
